@@ -1,12 +1,36 @@
 #!/usr/bin/env python3
 """Regenerates MANIFEST.json from the table below (run after adding a check)."""
 import json, subprocess, os
-HOOK_COMMITS = ["706dcd3"]
+HOOK_COMMITS = ["706dcd3", "e496d9f"]
 CHECKS = {
  "C02": dict(level="exploration", ref="DESIGN.md §3 C02",
    text="Held on every generated operation sequence explored: a transition monitor diffs a full queue snapshot before/after each of ~35k (quick) store operations on memory and SQLite across 13 limits/retention configurations; thorough adds 16x more sequences and a concurrent -race part with conservation and counter invariants.",
    note="Trusted: the snapshot readers (paginated ListMessages; read-only SQL dump for SQLite) and the virtual clock injection. Postgres backend not covered (no server in the sandbox).",
    technique="runtime monitoring: snapshot-diff transition monitor over generated operation histories (virtual clock), SQLite counter invariant hook, race detector on the concurrent part"),
+ "C03": dict(level="exploration", ref="DESIGN.md §3 C03",
+   text="Held on the sampled schedules: 48 (quick) / 2400 (thorough) concurrent histories of 8-32 clients over direct Store calls, Pull HTTP and Worker gRPC on memory and SQLite, recorded at the client boundary and checked per message with porcupine against a lease-register model (exclusivity mode), built and run under the Go race detector.",
+   note="Schedules are sampled, not enumerated; evidence reports overlapping operation pairs and distinct per-message operation orders. Virtual clock frozen inside a phase. Postgres not covered.",
+   technique="runtime monitoring: client-boundary history recording + porcupine linearizability check against a per-message lease register; Go race detector"),
+ "C04": dict(level="exploration", ref="DESIGN.md §3 C04",
+   text="Held on the sampled histories: same recorder as C03 with a stale-lease-heavy workload (every lease id ever seen is presented again after expiry, re-lease, cancel, requeue, settle; batch forms, duplicates, blank/unknown ids) checked in fencing mode, with a listing of every message at each quiescent point inside the history.",
+   note="The documented idempotent duplicate answer of the Pull/Worker API is derived from the history (another successful call of the same class on that lease issued before this one returned). Postgres not covered.",
+   technique="runtime monitoring: client-boundary history recording + porcupine check against a per-message lease register (fencing mode) + quiescent-point listings; Go race detector"),
+ "C05": dict(level="exploration", ref="DESIGN.md §3 C05",
+   text="Held on every single-client history explored: an independent ready-set model (must/may sets, 10 ms sweep granularity) bounds the size and content of every dequeue on memory and SQLite, through the store and through pullapi (max_batch 1/5/100/250); SQLite handles abandoned with leases held are reopened past expiry and must offer everything exactly once.",
+   note="Unbounded liveness restated as bounded progress on the store clock. One known finding (KF2: max_batch > 100). Postgres not covered.",
+   technique="runtime monitoring: reference-model monitor (ready set) over generated single-client histories under a virtual clock; abandon-and-reopen crash simulation"),
+ "C12": dict(level="exploration", ref="DESIGN.md §3 C12",
+   text="Held on every generated sequence: an independent admission model predicts admit/refuse and the exact evicted set for each enqueue (max_depth 1-8 x reject/drop_oldest, memory-pressure limits on memory) and every refusal must leave the snapshot unchanged; body/header sizes around the limits and arrival sequences (bursts, steady, idle gaps, 16-goroutine same-instant) go through the production ingress handler and token-bucket limiter under a virtual clock.",
+   note="received_at strictly increasing, retention off, so that 'oldest' and the active count are unambiguous; over-depth histories skipped as the quantifier says.",
+   technique="runtime monitoring: reference-model monitor (admission, token bucket) + snapshot-unchanged-on-refusal monitor over generated histories"),
+ "C13": dict(level="exploration", ref="DESIGN.md §3 C13",
+   text="Held (modulo one known finding) on every lock-step differential execution explored: the same generated operation sequence runs on memory and SQLite under one virtual clock and every return value plus a full listing is compared after every step (~19k steps quick), plus directed histories for every defect found so far.",
+   note="Forced-choice dequeues only (choice among equally eligible messages is exempt); memory-only documented guards kept out of play; Postgres not covered. Known finding KF1 (single Enqueue while over max_depth).",
+   technique="runtime monitoring: lock-step differential execution of generated Store-interface histories with per-step result and listing comparison"),
+ "C14": dict(level="exploration", ref="DESIGN.md §3 C14",
+   text="Held on every generated population and mutation: an independent selection (criteria, newest-first with id tie-break, limit default 100 / cap 1000) is compared with the snapshot diff and the reported counts for by-id and by-filter cancel/requeue/resume and DLQ requeue/delete on memory and SQLite, previews must change nothing, canceled leases are probed and must be dead.",
+   note="Admin HTTP and MCP surfaces are sampled on top of the store-level runs. Postgres not covered.",
+   technique="runtime monitoring: reference-model monitor (independent selection) + snapshot diff over generated populations and mutations"),
 }
 NOT_APPLICABLE = {}
 ALL = ["C%02d" % i for i in range(1, 21)]
